@@ -148,6 +148,10 @@ def main():
             c["text"] = c["text"] + " No Copy method sorts, and none copies elements under a condition other than a nil test (E5.copy-order, E5.copy-filter)."
         if pid == "C01":
             c["text"] = c["text"] + " A pointer parameter is as optional as what an in-module caller hands it (an optional field passed on unchecked keeps its obligation inside the callee); index goals over locals re-assigned under a test are decided path-sensitively (weakest precondition over every CFG path)."
+        if pid == "C01":
+            c["text"] = c["text"] + " A pointer returned next to an error by an interface method or a function outside the module is treated as nil unless the error was tested; the result of a module helper that counts up to the length of its operand is bounded by that length."
+        if pid == "C03":
+            c["text"] = c["text"] + " In a loop over a map or a still map-ordered slice, a map store of an iteration-dependent value needs a key injective in the range key, and a variable from outside the loop that some iterations set is not read by the body before the current iteration set it (E2.order-sensitive-exit: derived key, sticky state)."
         if pid in {"C01","C17"}:
             c["text"] = c["text"] + " No == / != between two interface values whose interface has a non-comparable implementer in the module (E4.P6)."
         if pid in {"C09","C10","C12","C13","C14"}:
